@@ -23,7 +23,7 @@ class Result:
         c["samples"] += st.get("samples", [])[:4]
 
 def rundir(pid):
-    d = os.path.join(BUILD, "run", pid)
+    d = os.path.join(vlib.RUNROOT, "run", pid)
     shutil.rmtree(d, ignore_errors=True); os.makedirs(d)
     return d
 
